@@ -14,7 +14,7 @@ Poisson1D, Heat1D as users of them) vs Model/C18_PDE.v.
 import json, math, itertools
 from fractions import Fraction as Fr
 import numpy as np
-import scipy, scipy.linalg, scipy.interpolate
+import scipy, scipy.linalg, scipy.interpolate, scipy.sparse, scipy.sparse.linalg
 from common import *
 
 IMPORTS = ("From CV Require Import Base.Cmp Base.QcLin Model.C18_PDE.\n"
@@ -37,6 +37,8 @@ SIG_CASE = "TimeDependentLinearPDE.solve|method:case-variant-accepted-then-Unbou
 SIG_SINGLE = "TimeDependentLinearPDE.solve|backward_euler:single-time-level-UnboundLocalError"
 SIG_TOBS = "TimeDependentLinearPDE.observe|time_obs:all-equal-final-broadcast"
 SIG_SPL = "TimeDependentLinearPDE.observe|coinciding-nodes-and-times:spline-route-raises"
+SIG_CPLX = "TimeDependentLinearPDE.solve|complex-data:imaginary-part-discarded"
+SIG_SPL2 = "TimeDependentLinearPDE.observe|coinciding-subgrid-nodes:spline-route-raises"
 
 REAL_SOLVE = scipy.linalg.solve
 REAL_RBS = scipy.interpolate.RectBivariateSpline
@@ -57,12 +59,21 @@ def qcs(x):
     return "(qc %s)" % cq(x)
 
 
+def realpart_exact(v):
+    """complex data with zero imaginary part -> the real array (anything else is a harness error)"""
+    v = np.asarray(v)
+    if np.iscomplexobj(v):
+        assert not np.any(v.imag), "genuinely complex data handed to a real encoder"
+        v = v.real
+    return np.asarray(v, dtype=float)
+
+
 def qcv(v):
-    return "(qvec %s)" % cqvec([float(x) for x in np.ravel(np.asarray(v, dtype=float))])
+    return "(qvec %s)" % cqvec([float(x) for x in np.ravel(realpart_exact(v))])
 
 
 def qcm(m):
-    m = np.asarray(m, dtype=float)
+    m = realpart_exact(m)
     if m.ndim != 2:
         m = m.reshape(len(m), -1) if m.ndim > 2 else np.atleast_2d(m)
     return "(qmat %s)" % cqmat([[float(x) for x in r] for r in m])
@@ -175,7 +186,7 @@ def csolver(skind, tag, calls):
 
 
 def cquirks(q):
-    return "(mkQ %s %s %s %s)" % (cbool(q["case"]), cbool(q["single"]), cbool(q["tobs"]), cbool(q["spline"]))
+    return "(mkQ %s %s %s %s %s)" % (cbool(q["case"]), cbool(q["single"]), cbool(q["tobs"]), cbool(q["spline"]), cbool(q["subgrid"]))
 
 
 # ------------------------------------------------------------------------------------------------
@@ -190,7 +201,10 @@ class Recorder:
 
 
 def densify(A):
-    return np.array(A.toarray() if scipy.sparse.issparse(A) else A, dtype=float)
+    if isinstance(A, scipy.sparse.linalg.LinearOperator):
+        A = A @ np.eye(A.shape[1])
+    A = A.toarray() if scipy.sparse.issparse(A) else np.asarray(A)
+    return np.array(A, dtype=complex if np.iscomplexobj(A) else float)
 
 
 class SolverBox:
@@ -205,7 +219,7 @@ class SolverBox:
     def __call__(self, A_in, b_in, *args, **kw):
         import scipy.sparse.linalg as spla
         A = densify(A_in)
-        b = np.array(b_in, dtype=float).ravel()
+        b = np.array(b_in, dtype=complex if np.iscomplexobj(b_in) else float).ravel()
         info = None
         k = self.rec.k
         self.rec.k += 1
@@ -214,7 +228,8 @@ class SolverBox:
         elif self.kind == "spsolve":
             x = spla.spsolve(scipy.sparse.csr_matrix(A_in), np.asarray(b_in, dtype=float).ravel())
         elif self.kind == "cg_tuple":
-            x, flag = spla.cg(A_in if scipy.sparse.issparse(A_in) else np.asarray(A_in), np.asarray(b_in, dtype=float).ravel(), rtol=kw["rtol"], atol=0.0)
+            x, flag = spla.cg(A_in if (scipy.sparse.issparse(A_in) or isinstance(A_in, spla.LinearOperator)) else np.asarray(A_in),
+                              np.asarray(b_in, dtype=float).ravel(), rtol=kw["rtol"], atol=0.0)
             info = [int(flag)]
         else:
             x = REAL_SOLVE(A, b)
@@ -230,7 +245,7 @@ class SolverBox:
             info = [k, kw["tag"]]
         elif self.kind == "real_tuple1":
             info = []
-        self.rec.solver_calls.append({"A": A.tolist(), "b": b.tolist(), "x": np.array(x, dtype=float).tolist(), "info": info,
+        self.rec.solver_calls.append({"A": A.tolist(), "b": b.tolist(), "x": np.array(x, dtype=complex if np.iscomplexobj(x) else float).tolist(), "info": info,
                                       "extra_args": len(args), "kw": sorted(kw)})
         if info is None:
             return x
@@ -329,6 +344,8 @@ def np_form(af, steady=False, style=None):
             A, b, c = bufs["A"], bufs["b"], bufs["c"]
         if style.get("sparse"):
             A = getattr(scipy.sparse, style["sparse"] + "_matrix")(A)
+        if style.get("linop"):
+            A = scipy.sparse.linalg.aslinearoperator(A)
         if style.get("src") == "scalar":
             b = float(b[0])
         A, b, c = cast_dtype(A, style.get("dt_op")) if style.get("dt_op") else A, cast_dtype(b, style.get("dt_src")) if style.get("dt_src") else b, \
@@ -369,6 +386,19 @@ def cast_dtype(v, dt):
     v = np.asarray(v, dtype=float)
     if dt == "list":
         return v.tolist()
+    if dt == "matrix":
+        return np.asmatrix(v)
+    if dt == "fortran":
+        return np.asfortranarray(v)
+    if dt == "strided":         # every second entry of a twice as long buffer (non-contiguous view)
+        big = np.repeat(v, 2, axis=-1)
+        return big[..., ::2]
+    if dt == "reversed":        # negative strides
+        return v[..., ::-1].copy()[..., ::-1]
+    if dt == "readonly":
+        w = v.copy()
+        w.setflags(write=False)
+        return w
     w = v.astype(dt)
     assert np.array_equal(np.asarray(w, dtype=complex), np.asarray(v, dtype=complex)), "values not representable as %s" % dt
     return w
@@ -388,19 +418,53 @@ def asgrid_obs(cfg):
     return np.array(g, dtype=cfg.get("gobs_dtype") or float)
 
 
+def drop_defaults(cfg, kw):
+    """cfg["omit_defaults"]: every optional constructor argument whose value is the documented default is NOT passed"""
+    if not cfg.get("omit_defaults"):
+        return kw
+    defaults = {"time_obs": "final", "method": "forward_euler", "grid_sol": None, "grid_obs": None, "observation_map": None,
+                "linalg_solve": None, "linalg_solve_kwargs": None}
+    return {k: v for k, v in kw.items() if not (k in defaults and (v is defaults[k] or (isinstance(v, str) and v == defaults[k])))}
+
+
 def mk_td(cuqi, cfg, rec, form=None):
     tobs = cfg["tobs"]
     if isinstance(tobs, list):
         tobs = np.array(tobs, dtype=float) if cfg.get("tobs_as_array", True) else list(tobs)
-    return cuqi.pde.TimeDependentLinearPDE(form or np_form(cfg["af"], style=cfg.get("style")), aslist(cfg["times"], cfg.get("times_dtype")), time_obs=tobs,
-                                           method=cfg["method"], grid_sol=aslist(cfg["gsol"], cfg.get("gsol_dtype")), grid_obs=asgrid_obs(cfg),
-                                           observation_map=pymap(cfg["omap"]), **mk_solver_args(cfg, rec))
+    form = form or np_form(cfg["af"], style=cfg.get("style"))
+    kw = dict(time_obs=tobs, method=cfg["method"], grid_sol=aslist(cfg["gsol"], cfg.get("gsol_dtype")), grid_obs=asgrid_obs(cfg),
+              observation_map=pymap(cfg["omap"]), **mk_solver_args(cfg, rec))
+    if cfg.get("lskw") == "empty" and "linalg_solve_kwargs" not in kw:
+        kw["linalg_solve_kwargs"] = {}
+    times = aslist(cfg["times"], cfg.get("times_dtype"))
+    if cfg.get("reassign"):
+        # built with decoy values, then every public attribute is re-assigned to the wanted one: the object must behave like a fresh one
+        other = "backward_euler" if cfg["method"] == "forward_euler" else "forward_euler"
+        decoy_times = np.array([7.0, 8.0, 9.5, 11.0])
+        pde = cuqi.pde.TimeDependentLinearPDE(lambda p, t: (np.eye(2), np.ones(2), np.array([5.0, 6.0])), decoy_times, time_obs=tobs, method=other,
+                                              grid_sol=np.array([10.0, 20.0, 30.0]), grid_obs=np.array([15.0]), observation_map=lambda u: u * 0 + 77,
+                                              **mk_solver_args(cfg, rec))
+        pde.PDE_form, pde.time_steps, pde.method, pde.observation_map = form, times, cfg["method"], kw["observation_map"]
+        pde.grid_sol = kw["grid_sol"]
+        pde.grid_obs = kw["grid_obs"]
+        return pde
+    return cuqi.pde.TimeDependentLinearPDE(form, times, **drop_defaults(cfg, kw))
 
 
 def mk_ss(cuqi, cfg, rec, form=None):
-    return cuqi.pde.SteadyStateLinearPDE(form or np_form(cfg["af"], steady=True, style=cfg.get("style")), grid_sol=aslist(cfg["gsol"], cfg.get("gsol_dtype")),
-                                         grid_obs=asgrid_obs(cfg), observation_map=pymap(cfg["omap"]),
-                                         **mk_solver_args(cfg, rec))
+    form = form or np_form(cfg["af"], steady=True, style=cfg.get("style"))
+    kw = dict(grid_sol=aslist(cfg["gsol"], cfg.get("gsol_dtype")), grid_obs=asgrid_obs(cfg), observation_map=pymap(cfg["omap"]), **mk_solver_args(cfg, rec))
+    if cfg.get("lskw") == "empty" and "linalg_solve_kwargs" not in kw:
+        kw["linalg_solve_kwargs"] = {}
+    if cfg.get("reassign"):
+        pde = cuqi.pde.SteadyStateLinearPDE(lambda p: (np.eye(2), np.array([5.0, 6.0])), grid_sol=np.array([10.0, 20.0, 30.0]), grid_obs=np.array([15.0, 25.0]),
+                                            observation_map=lambda u: u * 0 + 77, **mk_solver_args(cfg, rec))
+        pde.assemble(np.array([1.0]))            # leaves a stale assembled system behind
+        pde.PDE_form, pde.observation_map = form, kw["observation_map"]
+        pde.grid_sol = kw["grid_sol"]
+        pde.grid_obs = kw["grid_obs"]
+        return pde
+    return cuqi.pde.SteadyStateLinearPDE(form, **drop_defaults(cfg, kw))
 
 
 def outcome(f):
@@ -457,11 +521,25 @@ def drive_ss_direct(cuqi, cfg, p, form=None, assemble=True):
                 "grids_equal": bool(pde.grids_equal)}
 
 
-def mk_model(cuqi, pde, npar, a, d):
+def mk_model(cuqi, pde, npar, a, d, swap=False):
     dom = cuqi.geometry.Continuous1D(npar)
     if (a, d) != (1, 0):
         dom = cuqi.geometry.MappedGeometry(dom, map=lambda x, a=a, d=d: a * x + d)
+    if swap:        # model built around a decoy PDE object, the wanted one assigned afterwards
+        m = cuqi.model.PDEModel(cuqi.pde.SteadyStateLinearPDE(lambda p: (np.eye(2), np.array([5.0, 6.0]))), cuqi.geometry.Continuous1D(3), dom)
+        m.pde = pde
+        return m
     return cuqi.model.PDEModel(pde, cuqi.geometry.Continuous1D(3), dom)
+
+
+def call_forward(model, xin, style):
+    if style == "call":
+        return model(xin)
+    if style == "kw":
+        return model.forward(x=xin)
+    if style == "is_par":
+        return model.forward(xin, is_par=True)
+    return model.forward(xin)
 
 
 # ------------------------------------------------------------------------------------------------
@@ -715,7 +793,8 @@ def oracle_td(cfg, p, ob, q):
     if o[0] == "err":
         if exp[2]:
             return ("observe() raised %s although every observation node and time coincides with a solution node and time step "
-                    "(grid_sol %s nodes, %d time levels, time_obs=%r)" % (o[1], "no" if cfg["gsol"] is None else len(cfg["gsol"]), len(times), tob), SIG_SPL)
+                    "(grid_sol %s nodes, %d time levels, time_obs=%r)" % (o[1], "no" if cfg["gsol"] is None else len(cfg["gsol"]), len(times), tob),
+                    SIG_SPL if grids_identical(cfg["gsol"], cfg["gobs"]) else SIG_SPL2)
         return ("observe() raised %s" % o[1], "TimeDependentLinearPDE.observe")
     if not arr_close(o[1], exp[1], 1e-7, obs_floor(cfg, ob["u"])):
         sig = "TimeDependentLinearPDE.observe"
@@ -946,12 +1025,26 @@ def witness_runs(cuqi):
     ob = drive_td_direct(cuqi, c, p)
     bad = ob["stage"] == "run" and ob["obs"][0] == "err"
     out[SIG_SPL] = (bad, "3 time levels, time_obs='all', equal grids: observe() -> %s" % (ob["obs"][1] if bad else "ok"))
+    c = dict(_W_BASE, times=[0, 0.25, 0.5], gobs=[0.5, 1.0])
+    ob = drive_td_direct(cuqi, c, p)
+    bad = ob["stage"] == "run" and ob["obs"][0] == "err"
+    out[SIG_SPL2] = (bad, "3 time levels, time_obs='final', grid_obs = two of the four solution nodes: observe() -> %s" % (ob["obs"][1] if bad else "ok"))
+    Ac = 1j * np.array(_W_AF["A0"], dtype=float)
+    pde = cuqi.pde.TimeDependentLinearPDE(lambda par, t: (Ac, np.zeros(4), par), np.array([0.0, 0.25, 0.5]))
+    pde.assemble(np.array([1.0, 2.0, 3.0, 4.0], dtype=complex))
+    u = pde.solve()[0]
+    want = np.array([1.0, 2.0, 3.0, 4.0], dtype=complex)
+    for _ in range(2):
+        want = want + 0.25 * (Ac @ want)
+    bad = not (np.shape(u) == (4, 3) and np.allclose(u[:, -1], want, rtol=1e-12, atol=0))
+    out[SIG_CPLX] = (bad, "forward Euler for u' = i*Lap u (complex operator and initial condition): final level %s, the recurrence gives %s" % (
+        np.asarray(u)[:, -1].tolist(), want.tolist()))
     return out
 
 
 def tree_quirks(cuqi):
     w = witness_runs(cuqi)
-    return {"case": w[SIG_CASE][0], "single": w[SIG_SINGLE][0], "tobs": w[SIG_TOBS][0], "spline": w[SIG_SPL][0]}, w
+    return {"case": w[SIG_CASE][0], "single": w[SIG_SINGLE][0], "tobs": w[SIG_TOBS][0], "spline": w[SIG_SPL][0], "subgrid": w[SIG_SPL2][0]}, w
 
 
 def known_witnesses(ctx):
@@ -1309,7 +1402,21 @@ def obs_tol(cfg, tol):
     return tol
 
 
+def fill_interp_args(cfg, rec):
+    """an interpolant whose CONSTRUCTOR refused never saw the evaluation points: they are what the object holds"""
+    go = cfg["gobs"] if cfg.get("gobs") is not None else cfg.get("gsol")
+    for e in rec.i1 + rec.i2:
+        if "go" not in e and go is not None:
+            e["go"] = list(go)
+    for e in rec.i2:
+        if "to" not in e:
+            tob = cfg.get("tobs")
+            times = cfg.get("times") or []
+            e["to"] = [times[-1]] if (isinstance(tob, str) and tob.lower() == "final" and times) else list(times) if isinstance(tob, str) else list(tob or [])
+
+
 def td_cfg_term(cfg, q, rec, tol, form_term=None):
+    fill_interp_args(cfg, rec)
     return "(mkTD %s %s %s %s %s %s %s %s %s %s %s %s)" % (
         cquirks(q), form_term or cform(cfg["af"]), qcv(cfg["times"]), cmethod(cfg["method"]),
         csolver(cfg["solver"], cfg.get("tag", 0), rec.solver_calls), cgrid(cfg["gsol"]), cgrid(cfg["gobs"]), ctobs(cfg["tobs"]),
@@ -1317,6 +1424,7 @@ def td_cfg_term(cfg, q, rec, tol, form_term=None):
 
 
 def ss_cfg_term(cfg, rec, tol, form_term=None):
+    fill_interp_args(cfg, rec)
     return "(mkSC %s %s %s %s %s %s %s %s)" % (
         form_term or cform(cfg["af"]), csolver(cfg["solver"], cfg.get("tag", 0), rec.solver_calls), cgrid(cfg["gsol"]), cgrid(cfg["gobs"]),
         comap(cfg["omap"]), enc_i1(rec), ctol(tol), ctol(obs_tol(cfg, tol)))
@@ -1401,7 +1509,7 @@ def cases_td_forward(cuqi, cfg, plist, a, d, q, cell):
                          impl_fail="TimeDependentLinearPDE(method=%r, time_obs=%r, ...) refused by the constructor: %s" % (cfg["method"], cfg["tobs"], r[1]),
                          signature="TimeDependentLinearPDE.__init__")]
         pde = r[1]
-        model = mk_model(cuqi, pde, len(plist[0]), a, d)
+        model = mk_model(cuqi, pde, len(plist[0]), a, d, swap=bool(cfg.get("swap_pde")))
         prev = None
         alive = []
         for x in plist:
@@ -1411,7 +1519,7 @@ def cases_td_forward(cuqi, cfg, plist, a, d, q, cell):
                 xin = xbuf
             else:
                 xin = cast_par(cfg, x)
-            raw = outcome(lambda: model.forward(xin))
+            raw = outcome(lambda: call_forward(model, xin, cfg.get("call_style")))
             o = model_output(raw)
             alive.append((len(out), raw[1] if raw[0] == "ok" and isinstance(raw[1], np.ndarray) else None,
                           np.array(raw[1], copy=True) if raw[0] == "ok" and isinstance(raw[1], np.ndarray) else None, np.array(xin, copy=True), cast_par(cfg, x)))
@@ -1502,7 +1610,7 @@ def cases_ss_forward(cuqi, cfg, plist, a, d, cell):
     rec = Recorder()
     with Patches(rec):
         pde = mk_ss(cuqi, cfg, rec)
-        model = mk_model(cuqi, pde, len(plist[0]), a, d)
+        model = mk_model(cuqi, pde, len(plist[0]), a, d, swap=bool(cfg.get("swap_pde")))
         prev = None
         alive = []
         for x in plist:
@@ -1512,7 +1620,7 @@ def cases_ss_forward(cuqi, cfg, plist, a, d, cell):
                 xin = xbuf
             else:
                 xin = cast_par(cfg, x)
-            raw = outcome(lambda: model.forward(xin))
+            raw = outcome(lambda: call_forward(model, xin, cfg.get("call_style")))
             o = model_output(raw)
             own = raw[0] == "ok" and isinstance(raw[1], np.ndarray) and cfg["solver"] != "real_buffer"
             alive.append((len(out), raw[1] if own else None, np.array(raw[1], copy=True) if own else None, np.array(xin, copy=True), cast_par(cfg, x)))
@@ -1540,6 +1648,202 @@ def cases_ss_forward(cuqi, cfg, plist, a, d, cell):
             prev = pf
         keep_alive(out, alive)
     return out
+
+
+# ---------------- observe() alone on exactly bicubic data; the oracle laws of scipy's interpolants ----------------
+def bicubic(rng):
+    return [[rng.randint(-2, 2) if (a + b) <= 4 else rng.choice([0, 1, -1]) for b in range(4)] for a in range(4)]
+
+
+def bicubic_eval(C, x, t):
+    x, t = frac(float(x)), frac(float(t))
+    return sum(Fr(C[a][b]) * x ** a * t ** b for a in range(4) for b in range(4))
+
+
+def case_observe_poly(cuqi, rng, q, rel, tkind, om0):
+    """the caller hands observe() samples of a polynomial of degree <= 3 in x and in t: a bicubic interpolating spline reproduces
+    it, so the exact answer at any (grid_obs, time_obs) is known"""
+    n, nt = rng.randint(4, 6), rng.randint(4, 6)
+    times = gen_times(rng, rng.choice(["uniform", "nonuniform"]), nt)
+    gs, go = gen_grids(rng, n, rel)
+    tobs, as_arr = gen_tobs(rng, tkind, times)
+    om = fix_omap(rng, gen_omap(rng, om0, n), n if go is None else len(go))
+    C = bicubic(rng)
+    U = np.array([[float(bicubic_eval(C, x, t)) for t in times] for x in gs])
+    cfg = {"af": None, "times": times, "method": "forward_euler", "solver": "default", "tag": 0, "gsol": gs, "gobs": go, "tobs": tobs, "tobs_as_array": as_arr, "omap": om}
+    rec = Recorder()
+    with Patches(rec):
+        pde = mk_td(cuqi, cfg, rec, form=lambda p, t: (np.eye(n), np.zeros(n), np.zeros(n)))
+        keep = U.copy()
+        o = outcome(lambda: pde.observe(U))
+    tl = [times[-1]] if isinstance(tobs, str) and tobs.lower() == "final" else list(times) if isinstance(tobs, str) else list(tobs)
+    gl = gs if go is None else go
+    fail = None
+    coincide = all(idx_of(x, gs) is not None for x in gl) and all(idx_of(t, times) is not None for t in tl)
+    unsorted_ = any(b < a for a, b in zip(tl, tl[1:])) or any(b < a for a, b in zip(gl, gl[1:]))
+    if o[0] == "ok":
+        E = np.array([[float(bicubic_eval(C, x, t)) for t in tl] for x in gl])
+        pm = pymap(om)
+        try:
+            if len(tl) == 1:
+                E = np.asarray(pm(E[:, 0]) if pm else E[:, 0], dtype=float).squeeze()
+            else:
+                E = np.asarray(pm(E) if pm else E, dtype=float)
+            if not arr_close(o[1], E, 1e-10, obs_floor(cfg, U)):
+                fail = ("observe() of samples of a bicubic polynomial on a %dx%d grid: got %s, the polynomial at (grid_obs, time_obs) is %s" % (
+                    n, nt, np.asarray(o[1]).ravel()[:6].tolist(), E.ravel()[:6].tolist()), "TimeDependentLinearPDE.observe")
+        except Exception:
+            pass
+    elif coincide:
+        fail = ("observe() raised %s although every observation node and time is a stored one" % o[1], SIG_SPL if grids_identical(gs, go) else SIG_SPL2)
+    elif not unsorted_:
+        fail = ("observe() raised %s on a %dx%d grid" % (o[1], n, nt), "TimeDependentLinearPDE.observe")
+    if not np.array_equal(U, keep):
+        fail = ("observe() altered the solution array it was given", "TimeDependentLinearPDE.observe")
+    ot = "(Ok (%s, %s))" % (cbool(len(rec.i2) > 0), carr(o[1])) if o[0] == "ok" else "(Er %s)" % ecode(o[1])
+    expr = "check_td_observe %s %s %s %s %s %s %s %s %s %s && %s" % (cquirks(q), cgrid(gs), cgrid(go), qcv(times), ctobs(tobs), comap(om), enc_i2(rec), ctol("12"),
+                                                                  qcols(U), ot, cbool(interp_args_ok(rec)))
+    return Case(expr=expr, meta={"kind": "observe_poly", "rel": rel, "tkind": tkind, "omap": om, "times": times, "gsol": gs, "gobs": go, "tobs": tobs, "C": C},
+                cell="td/observe-bicubic/%s/%s/%s" % (rel, tkind, om[0]), impl_fail=fail[0] if fail else None, signature=fail[1] if fail else "")
+
+
+def case_oracle_law(rng, which):
+    """the laws the model assumes of scipy's interpolants, checked on scipy itself on every run (independent of cuqi):
+    RectBivariateSpline (default kx=ky=3, s=0) reproduces polynomials of degree <= 3 in each variable on >= 4x4 grids, is exact
+    at the nodes, and equals the tensor product of two one-dimensional interpolating cubic splines (own B-spline code);
+    interp1d(kind='quadratic') reproduces quadratics on >= 3 nodes and is exact at the nodes"""
+    fail = None
+    if which == "rbs":
+        n, nt = rng.randint(4, 7), rng.randint(4, 7)
+        x, t = gen_grid(rng, n), gen_times(rng, "nonuniform", nt)
+        C = bicubic(rng)
+        U = np.array([[float(bicubic_eval(C, a, b)) for b in t] for a in x])
+        xo = sorted(rng.uniform(x[0], x[-1]) for _ in range(3)) + [x[1]]
+        to = sorted(rng.uniform(t[0], t[-1]) for _ in range(2)) + [t[-1]]
+        xo, to = sorted(xo), sorted(to)
+        R = REAL_RBS(x, t, U)(xo, to)
+        E = np.array([[float(bicubic_eval(C, a, b)) for b in to] for a in xo])
+        W = np.array([[rng.randint(-9, 9) for _ in t] for _ in x], dtype=float)      # arbitrary data: node exactness + tensor structure
+        RW = REAL_RBS(x, t, W)
+        T = spline_interp(t, spline_interp(x, W, 3, xo).T, 3, to).T
+        m = float(np.max(np.abs(U)))
+        if not np.all(np.abs(R - E) <= 1e-10 * m):
+            fail = "RectBivariateSpline does not reproduce a bicubic polynomial on a %dx%d grid (max error %.3g)" % (n, nt, float(np.max(np.abs(R - E))))
+        elif not np.all(np.abs(RW(x, t) - W) <= 1e-10 * 9):
+            fail = "RectBivariateSpline is not exact at its nodes"
+        elif not np.all(np.abs(RW(xo, to) - T) <= 1e-9 * 9):
+            fail = "RectBivariateSpline differs from the tensor product of two 1-d interpolating cubic splines"
+        meta = {"kind": "law", "which": which, "x": x, "t": t}
+    else:
+        n = rng.randint(3, 7)
+        x = gen_grid(rng, n)
+        q2 = [rng.randint(-3, 3) for _ in range(3)]
+        y = np.array([float(poly_eval(q2, frac(a))) for a in x])
+        xo = [rng.uniform(x[0], x[-1]) for _ in range(4)]                              # any order
+        R = REAL_INTERP1D(x, y, kind="quadratic")(xo)
+        E = np.array([float(poly_eval(q2, frac(float(a)))) for a in xo])
+        w = np.array([rng.randint(-9, 9) for _ in x], dtype=float)
+        if not np.all(np.abs(R - E) <= 1e-10 * float(np.max(np.abs(y)) + 1e-300)):
+            fail = "interp1d(kind='quadratic') does not reproduce a quadratic on %d nodes" % n
+        elif not np.all(np.abs(REAL_INTERP1D(x, w, kind="quadratic")(x) - w) <= 1e-10 * 9):
+            fail = "interp1d(kind='quadratic') is not exact at its nodes"
+        meta = {"kind": "law", "which": which, "x": x}
+    return Case(expr="true", meta=meta, cell="oracle-law/%s" % which, kind="DECISION", impl_fail=fail, signature="scipy-oracle-law|%s" % which if fail else "")
+
+
+# ---------------- complex-valued problems, modelled through the real embedding z -> (Re z, Im z) ----------------
+def emb_m(M):
+    M = np.asarray(M, dtype=complex)
+    return np.block([[M.real, -M.imag], [M.imag, M.real]])
+
+
+def emb_v(v):
+    v = np.asarray(v, dtype=complex).ravel()
+    return np.concatenate([v.real, v.imag])
+
+
+def case_complex(cuqi, rng, q, steady, method, sk):
+    n, npar = rng.randint(2, 4), 2
+    ri = lambda lo, hi: rng.randint(lo, hi)
+    lap = np.array([[(-2 if i == j else 1 if abs(i - j) == 1 else 0) for j in range(n)] for i in range(n)], dtype=float)
+    A0 = (lap + (6 * np.eye(n) if steady else 0)) + 1j * np.array([[ri(-1, 1) if abs(i - j) <= 1 else 0 for j in range(n)] for i in range(n)])
+    At = np.zeros((n, n)) if steady else np.array([[rng.choice([0, 0, 1]) if i == j else 0 for j in range(n)] for i in range(n)]) * (1 + 1j)
+    b0 = np.array([ri(-2, 2) + 1j * ri(-2, 2) for _ in range(n)])
+    Bp = np.array([[ri(-1, 1) + 1j * ri(-1, 1) for _ in range(npar)] for _ in range(n)])
+    c0 = np.array([ri(-2, 2) + 1j * ri(-2, 2) for _ in range(n)])
+    Cp = np.array([[(1 if i % npar == k else 0) * (1 + 0j) for k in range(npar)] for i in range(n)])
+    p = [rng.choice([-1.0, 0.5, 1.0, 2.0]) for _ in range(npar)]
+    times = [0.0] if steady else gen_times(rng, rng.choice(["uniform", "nonuniform"]), rng.randint(2, 4))
+
+    def form(par, t):
+        par = np.asarray(par, dtype=float)
+        return (A0 + t * At, b0 + Bp @ par, c0 + Cp @ par)
+    cfg = {"solver": sk, "tag": 8, "method": method, "times": times, "steady": steady}
+    rec = Recorder()
+    with Patches(rec):
+        if steady:
+            pde = cuqi.pde.SteadyStateLinearPDE(lambda par: form(par, 0.0)[:2], **mk_solver_args(cfg, rec))
+        else:
+            pde = cuqi.pde.TimeDependentLinearPDE(form, np.array(times), method=method, **mk_solver_args(cfg, rec))
+        pde.assemble(np.array(p))
+        r = outcome(pde.solve)
+        if r[0] == "ok":
+            u_raw, info = r[1]
+            o = outcome(lambda: pde.observe(u_raw))
+    meta = {"kind": "complex", "steady": steady, "method": method, "solver": sk, "n": n, "times": times, "p": p,
+            "A0": [[str(v) for v in row] for row in A0.tolist()], "At": [[str(v) for v in row] for row in At.tolist()]}
+    cell = "%s/complex/%s/%s" % ("ss" if steady else "td", method or "steady", sk)
+    if r[0] == "err" or o[0] == "err":
+        return Case(expr="false", meta=meta, cell=cell, impl_fail="complex-valued problem: %s raised %s" % ("solve()" if r[0] == "err" else "observe()", r[1] if r[0] == "err" else o[1]),
+                    signature="TimeDependentLinearPDE.solve" if not steady else "SteadyStateLinearPDE.solve")
+    # the real embedding of everything, handed to the (real) model
+    af = {"A0": emb_m(A0), "At": emb_m(At), "Ap": [], "b0": emb_v(b0), "bt": np.zeros(2 * n), "Bp": np.vstack([Bp.real, Bp.imag]),
+          "c0": emb_v(c0), "ct": np.zeros(2 * n), "Cp": np.vstack([Cp.real, Cp.imag])}
+    calls = [{"A": emb_m(c["A"]), "b": emb_v(c["b"]), "x": emb_v(c["x"]), "info": c["info"]} for c in rec.solver_calls]
+    tol = "0" if (sk.startswith("fake") or (not steady and method == "forward_euler")) else "12"
+    solver_t = csolver(sk, 8, calls)
+    info_t = cinfo(info_list(info))
+    fail = None
+    if steady:
+        sol = np.asarray(u_raw)
+        A, b, _ = form(p, 0.0)
+        scale = float(np.max(np.abs(b))) + n * float(np.max(np.abs(A))) * float(np.max(np.abs(sol)))
+        target = (2 * np.eye(n) - A) @ b if sk.startswith("fake") else None
+        if sol.shape != (n,) or (target is None and float(np.max(np.abs(A @ sol - b))) > 1e-9 * scale) or \
+                (target is not None and not np.array_equal(sol, target)):
+            fail = ("steady complex system: the returned solution is not the solver's answer for (A(p), b(p)) / violates A(p) u = b(p)", "SteadyStateLinearPDE.solve")
+        cfg_t = "(mkSC %s %s None None OMNone [] %s %s)" % (cform(af), solver_t, ctol(tol), ctol(tol))
+        obs_t = "(SRun %s %s (Ok (false, (A1 %s))))" % (qcv(emb_v(sol)), info_t, qcv(emb_v(o[1])))
+        expr = "check_ss %s true %s %s" % (cfg_t, qcv(p), obs_t)
+    else:
+        u = np.asarray(u_raw)
+        E = [np.asarray(form(p, times[0])[2], dtype=complex)]
+        nt = len(times)
+        if u.shape != (n, nt):
+            fail = ("stored levels have shape %s" % (u.shape,), "TimeDependentLinearPDE.solve")
+        else:
+            for k in range(nt - 1):
+                dt = times[k + 1] - times[k]
+                if method == "forward_euler":
+                    A, b, _ = form(p, times[k])
+                    res = u[:, k + 1] - (u[:, k] + dt * (A @ u[:, k] + b))
+                else:
+                    A, b, _ = form(p, times[k + 1])
+                    if sk.startswith("fake"):
+                        rr = u[:, k] + dt * b
+                        res = u[:, k + 1] - (rr + dt * (A @ rr))
+                    else:
+                        res = u[:, k + 1] - dt * (A @ u[:, k + 1]) - (u[:, k] + dt * b)
+                sc = max(float(np.max(np.abs(u[:, k:k + 2]))), float(np.max(np.abs(dt * b))))
+                if float(np.max(np.abs(res))) > 1e-9 * sc or not np.allclose(u[:, 0], E[0], rtol=1e-12, atol=0):
+                    fail = ("complex-valued problem (%s, operator with imaginary part): level %d violates the Euler recurrence, residual %s; dtype of the stored "
+                            "levels is %s%s" % (method, k + 1, np.round(res, 6).tolist(), u.dtype,
+                                                " - the imaginary part is discarded when a level is stored" if not np.iscomplexobj(u) else ""), SIG_CPLX)
+                    break
+        cfg_t = "(mkTD %s %s %s %s %s None None TOFinal OMNone [] %s %s)" % (cquirks(q), cform(af), qcv(times), cmethod(method), solver_t, ctol(tol), ctol(tol))
+        obs_t = "(TRun %s %s (Ok (false, (A1 %s))))" % (clist([qcv(emb_v(u[:, k])) for k in range(u.shape[1])]) if u.ndim == 2 else "[]", info_t, qcv(emb_v(o[1])))
+        expr = "check_td %s %s %s" % (cfg_t, qcv(p), obs_t)
+    return Case(expr=expr, meta=meta, cell=cell, impl_fail=fail[0] if fail else None, signature=fail[1] if fail else "")
 
 
 # ---------------- solutions with two space axes: solution.ndim = 3 ----------------
@@ -1621,9 +1925,10 @@ def case_grids(cuqi, rng, n):
 
 
 # ---------------- gradient dispatch ----------------
-def case_gradient(cuqi, rng, have_g, have_j, steady):
-    n, npar = 4, rng.randint(2, 4)
-    nout = n
+def case_gradient(cuqi, rng, have_g, have_j, steady, shape=None):
+    """shape = (number of observations, number of parameters): square non-symmetric, tall and wide Jacobians"""
+    n = 4
+    nout, npar = shape or (4, rng.randint(2, 4))
     mk = lambda: [[rng.randint(-2, 2) for _ in range(npar)] for _ in range(nout)]
     G, J = (mk(), mk()), (mk(), mk())
     a, d = rng.choice([(1, 0), (2, 1), (1, 0), (-1, 0.5)])
@@ -1634,6 +1939,9 @@ def case_gradient(cuqi, rng, have_g, have_j, steady):
     if have_j:
         ns["jacobian_wrt_parameter"] = lambda self, wrt: np.array(J[0], float) + wrt[0] * np.array(J[1], float)
     cls = type("UserPDE", (base,), ns)
+    if shape and shape[0] == shape[1]:
+        while np.array_equal(np.array(J[0]), np.array(J[0]).T) or np.array_equal(np.array(G[0]), np.array(G[0]).T):
+            G, J = (mk(), mk()), (mk(), mk())          # square Jacobians are never symmetric
     if steady:
         pde = cls(lambda p: (np.eye(n), np.ones(n)))
     else:
@@ -1666,7 +1974,7 @@ def case_gradient(cuqi, rng, have_g, have_j, steady):
                                                  cres(o, qcv))
     return Case(expr=expr, meta={"kind": "gradient", "have_g": have_g, "have_j": have_j, "steady": steady, "G": G, "J": J, "a": a, "d": d,
                                  "direction": direction, "wrt": wrt},
-                cell="gradient/%s%s/%s" % ("g" if have_g else "-", "j" if have_j else "-", "steady" if steady else "td"),
+                cell="gradient/%s%s/%s/%s" % ("g" if have_g else "-", "j" if have_j else "-", "steady" if steady else "td", "%dx%d" % tuple(shape) if shape else "any"),
                 kind="EXACT", impl_fail=fail, signature="PDEModel._gradient_func" if fail else "")
 
 
@@ -2206,6 +2514,166 @@ def run(ctx):
                         cell = "ss/dtype/%s/%s" % (which, gdt)
                         cases.add(cell, "ss_direct", lambda: case_ss_direct(cuqi, cfg, p, cell), cfg=cfg, p=p, assembled=True)
 
+    # ---- 5g. genuinely complex-valued problems (operator, source, initial condition with imaginary parts), via the real embedding ---------
+    for _ in range(reps if not ctx.thorough else 3):
+        for steady, method, sk in [(False, "forward_euler", "default"), (False, "backward_euler", "fake"), (False, "backward_euler", "default"),
+                                   (False, "backward_euler", "real_tuple"), (True, None, "default"), (True, None, "fake")]:
+            cases.add("complex", "complex", lambda: case_complex(cuqi, rng, q, steady, method, sk))
+
+    # ---- 5h. observe() alone on exactly bicubic data; the assumed laws of scipy's interpolants checked on scipy itself --------------------
+    k = 0
+    for _ in range(reps):
+        for rel in ["sol_only", "equal_copy", "subgrid", "same_len_shifted", "offnodes"]:
+            for tkind in ["final", "all", "arr_nodes", "arr_offnodes", "arr_mixed", "arr_one_node", "arr_unsorted"]:
+                k += 1
+                cases.add("td/observe-bicubic", "observe_poly", lambda: case_observe_poly(cuqi, rng, q, rel, tkind, omaps[k % len(omaps)]))
+        for _i in range(ctx.n(6, 40)):
+            cases.add("oracle-law/rbs", "law", lambda: case_oracle_law(rng, "rbs"))
+            cases.add("oracle-law/interp1d", "law", lambda: case_oracle_law(rng, "interp1d"))
+
+    # ---- 5i. the remaining lessons: memory layout, np.matrix / LinearOperator operators, omitted optional arguments and call styles,
+    #          re-assigned attributes, falsy-but-legitimate values, operators without "nice" structure, threshold sizes, unsorted grid_obs ------
+    for _ in range(reps if not ctx.thorough else 2):
+        for lay in ["fortran", "strided", "reversed", "readonly", "matrix"]:
+            for method, sk in [("forward_euler", "default"), ("backward_euler", "default"), ("backward_euler", "fake")]:
+                n, nt, npar = rng.randint(3, 5), rng.randint(2, 5), 2
+                for attempt in range(20):
+                    style = {"dt_op": "matrix"} if lay == "matrix" else {"dt_op": lay if lay in ("fortran", "readonly") else None, "dt_src": None if lay in ("fortran",) else lay,
+                                                                          "dt_ic": None if lay == "fortran" else lay, "dt_par": None if lay == "fortran" else lay}
+                    cfg = {"af": gen_af(rng, n, npar, "all", True), "style": style, "times": gen_times(rng, "nonuniform", nt), "method": method, "solver": sk, "tag": 0,
+                           "gsol": gen_grid(rng, n), "gobs": None, "gsol_dtype": None if lay in ("matrix", "fortran") else lay, "times_dtype": None if lay in ("matrix", "fortran") else lay,
+                           "tobs": "final", "omap": ["none"]}
+                    plist = [gen_p(rng, npar), gen_p(rng, npar)]
+                    if sk == "fake" or method == "forward_euler" or all(well_conditioned(cfg, x) for x in plist):
+                        break
+                cell = "td/style/layout-%s/%s/%s" % (lay, method, sk)
+                cases.add(cell, "td_forward", lambda: cases_td_forward(cuqi, cfg, plist, 1, 0, q, cell), cfg=cfg, plist=plist, a=1, d=0)
+            n, npar = rng.randint(3, 5), 2
+            style = {"dt_op": "matrix"} if lay == "matrix" else {"dt_op": lay if lay in ("fortran", "readonly") else None, "dt_src": None if lay == "fortran" else lay,
+                                                                  "dt_par": None if lay == "fortran" else lay}
+            for attempt in range(20):
+                cfg = {"steady": True, "af": gen_af(rng, n, npar, "all", False, steady=True), "style": style, "solver": "default", "tag": 0, "gsol": None, "gobs": None,
+                       "omap": ["none"]}
+                plist = [gen_p(rng, npar), gen_p(rng, npar)]
+                if all(well_conditioned(cfg, x) for x in plist):
+                    break
+            cell = "ss/style/layout-%s" % lay
+            cases.add(cell, "ss_forward", lambda: cases_ss_forward(cuqi, cfg, plist, 1, 0, cell), cfg=cfg, plist=plist, a=1, d=0)
+        # LinearOperator operator with the iterative route (steady; time stepping needs array arithmetic on the operator)
+        n, npar = rng.randint(3, 5), 2
+        cfg = {"steady": True, "af": spd_af(rng, n, npar, True), "style": {"linop": True}, "solver": "cg_tuple", "tag": 0, "gsol": None, "gobs": None, "omap": ["none"]}
+        p = gen_p(rng, npar)
+        cases.add("ss/style/LinearOperator/cg_tuple", "ss_direct", lambda: case_ss_direct(cuqi, cfg, p, "ss/style/LinearOperator/cg_tuple"), cfg=cfg, p=p, assembled=True)
+        # optional arguments left out / given as their defaults in the other spelling; call styles of the model; model built around another PDE
+        for extra in [{"omit_defaults": True}, {"lskw": "empty"}, {"call_style": "call"}, {"call_style": "kw"}, {"call_style": "is_par"}, {"swap_pde": True},
+                      {"reassign": True}, {"reassign": True, "swap_pde": True}]:
+            for kind, method, sk in [("td", "forward_euler", "default"), ("td", "backward_euler", "default"), ("td", "backward_euler", "fake_tuple"), ("ss", None, "default"), ("ss", None, "real_tuple")]:
+                n, nt, npar = rng.randint(4, 5), rng.randint(4, 5), 2
+                for attempt in range(20):
+                    if kind == "td":
+                        times = gen_times(rng, "nonuniform", nt)
+                        rel = rng.choice(["none_none", "sol_only", "offnodes"]) if not extra.get("omit_defaults") else "none_none"
+                        gs, go = gen_grids(rng, n, rel)
+                        tob = "final" if (extra.get("omit_defaults") or not extra.get("reassign")) else [times[-1]]
+                        if extra.get("reassign") and rel == "offnodes":
+                            tob = [times[-1], times[-1]] if False else sorted([times[1], times[-1]])
+                        cfg = dict({"af": gen_af(rng, n, npar, "all", True), "times": times, "method": method if not extra.get("omit_defaults") else "forward_euler",
+                                    "solver": sk if not (extra.get("omit_defaults") and sk != "default") else "default", "tag": 0, "gsol": gs, "gobs": go, "tobs": tob,
+                                    "omap": [rng.choice(["none", "square"])] if not extra.get("omit_defaults") else ["none"]}, **extra)
+                    else:
+                        gs, go = gen_grids(rng, n, rng.choice(["none_none", "sol_only", "offnodes"]) if not extra.get("omit_defaults") else "none_none")
+                        cfg = dict({"steady": True, "af": gen_af(rng, n, npar, "all", False, steady=True), "solver": sk if not extra.get("omit_defaults") else "default", "tag": 0,
+                                    "gsol": gs, "gobs": go, "omap": [rng.choice(["none", "square"])] if not extra.get("omit_defaults") else ["none"]}, **extra)
+                    plist = [gen_p(rng, npar), gen_p(rng, npar)]
+                    if cfg["solver"].startswith("fake") or cfg.get("method") == "forward_euler" or all(well_conditioned(cfg, x) for x in plist):
+                        break
+                cell = "%s/entry-points/%s/%s" % (kind, "+".join("%s=%s" % kv for kv in sorted(extra.items())), cfg["solver"])
+                if kind == "td":
+                    cases.add(cell, "td_forward", lambda: cases_td_forward(cuqi, cfg, plist, 1, 0, q, cell), cfg=cfg, plist=plist, a=1, d=0)
+                    if not extra.get("call_style") and not extra.get("swap_pde"):
+                        cases.add(cell, "td_direct", lambda: case_td_direct(cuqi, cfg, plist[0], q, cell), cfg=cfg, p=plist[0])
+                else:
+                    cases.add(cell, "ss_forward", lambda: cases_ss_forward(cuqi, cfg, plist, 1, 0, cell), cfg=cfg, plist=plist, a=1, d=0)
+                    if not extra.get("call_style") and not extra.get("swap_pde"):
+                        cases.add(cell, "ss_direct", lambda: case_ss_direct(cuqi, cfg, plist[0], cell), cfg=cfg, p=plist[0], assembled=True)
+        # falsy-but-legitimate values: zero parameter and zero data (solution identically 0), a repeated time (dt = 0), zero scaling map,
+        # tag / info 0, observation at time 0.0
+        for method, sk in [("forward_euler", "default"), ("backward_euler", "real_tuple"), ("backward_euler", "fake_tuple")]:
+            n, npar = rng.randint(3, 5), 2
+            af = gen_af(rng, n, npar, "all", True)
+            af0 = dict(af, b0=[0] * n, bt=[0] * n, c0=[0] * n, ct=[0] * n)
+            times = [0.0, 0.25, 0.25, 0.5, 1.0]
+            for afx, p, om, tob in [(af0, [0.0, 0.0], ["none"], "final"), (af, [0.0, 0.0], ["scale", 0.0], "final"), (af, gen_p(rng, npar), ["none"], [0.0]),
+                                    (af, [0.0, 1.0], ["first"], "final")]:
+                for attempt in range(20):
+                    cfg = {"af": afx, "times": times, "method": method, "solver": sk, "tag": 0, "gsol": None, "gobs": None, "tobs": tob, "omap": om}
+                    if sk.startswith("fake") or method == "forward_euler" or well_conditioned(cfg, p):
+                        break
+                    afx = dict(gen_af(rng, n, npar, "all", True), **({"b0": [0] * n, "bt": [0] * n, "c0": [0] * n, "ct": [0] * n} if afx is af0 else {}))
+                cell = "td/falsy/%s/%s/%s" % (method, sk, om[0] + ("-zero" if p == [0.0, 0.0] else ""))
+                cases.add(cell, "td_direct", lambda: case_td_direct(cuqi, cfg, p, q, cell), cfg=cfg, p=p)
+        # operators without nice structure: indefinite / negative determinant steady operators, growth operators for backward Euler
+        for _j in range(3):
+            n, npar = rng.randint(2, 5), 2
+            for attempt in range(50):
+                A0 = [[rng.randint(-4, 4) for _ in range(n)] for _ in range(n)]
+                if abs(np.linalg.det(np.array(A0, float))) > 0.5 and np.linalg.det(np.array(A0, float)) < 0 and np.linalg.cond(np.array(A0, float)) < 200:
+                    break
+            af = gen_af(rng, n, npar, "source", False, steady=True)
+            cfg = {"steady": True, "af": dict(af, A0=A0), "solver": rng.choice(["default", "real_tuple", "fake"]), "tag": 1, "gsol": None, "gobs": None, "omap": ["none"]}
+            p = gen_p(rng, npar)
+            cases.add("ss/structure/negative-determinant", "ss_direct", lambda: case_ss_direct(cuqi, cfg, p, "ss/structure/negative-determinant"), cfg=cfg, p=p, assembled=True)
+            af = gen_af(rng, n, npar, "all", True)
+            af = dict(af, A0=[[(8 if i == j else 0) + af["A0"][i][j] for j in range(n)] for i in range(n)])
+            for attempt in range(20):
+                cfg = {"af": af, "times": gen_times(rng, "nonuniform", 4), "method": "backward_euler", "solver": rng.choice(["default", "real_tuple"]), "tag": 1, "gsol": None,
+                       "gobs": None, "tobs": "final", "omap": ["none"]}
+                p = gen_p(rng, npar)
+                if well_conditioned(cfg, p):
+                    break
+            cases.add("td/structure/growth-operator", "td_direct", lambda: case_td_direct(cuqi, cfg, p, q, "td/structure/growth-operator"), cfg=cfg, p=p)
+        # threshold sizes: 1 and 2 nodes, 2/3 nodes for the quadratic interpolant, 3/4 nodes and levels for the bicubic one
+        for n in [1, 2]:
+            for method, sk in [("forward_euler", "default"), ("backward_euler", "default"), ("backward_euler", "fake_tuple")]:
+                for attempt in range(20):
+                    cfg = {"af": gen_af(rng, n, 1, "all", True), "times": gen_times(rng, "nonuniform", 3), "method": method, "solver": sk, "tag": 2, "gsol": None, "gobs": None,
+                           "tobs": rng.choice(["final", "all"]) if n > 1 else "final", "omap": [rng.choice(["none", "first"])]}
+                    p = gen_p(rng, 1)
+                    if sk.startswith("fake") or method == "forward_euler" or well_conditioned(cfg, p):
+                        break
+                cell = "td/threshold/%d-nodes/%s/%s" % (n, method, sk)
+                cases.add(cell, "td_direct", lambda: case_td_direct(cuqi, cfg, p, q, cell), cfg=cfg, p=p)
+        for n in [1, 2, 3, 4]:
+            gs = gen_grid(rng, n)
+            for go in ([[gs[0]]] if n == 1 else [[(gs[0] + gs[1]) / 2], [gs[-1], gs[0]], [gs[0]]]):
+                for attempt in range(20):
+                    cfg = {"steady": True, "af": gen_af(rng, n, 1, "source", False, steady=True), "solver": "default", "tag": 0, "gsol": gs, "gobs": go, "omap": ["none"]}
+                    p = gen_p(rng, 1)
+                    if well_conditioned(cfg, p):
+                        break
+                cell = "ss/threshold/%d-nodes" % n
+                cases.add(cell, "ss_direct", lambda: case_ss_direct(cuqi, cfg, p, cell), cfg=cfg, p=p, assembled=True)
+        # observation nodes in any order (steady: interp1d accepts unsorted points; coinciding nodes listed right-to-left)
+        for kind in ["nodes-reversed", "nodes-shuffled", "offnodes-shuffled", "mixed-shuffled"]:
+            for sk in ["default", "fake"]:
+                n, npar = rng.randint(4, 6), 2
+                gs = gen_grid(rng, n)
+                pts = rng.sample(gs, rng.randint(2, n)) if kind.startswith("nodes") else [(gs[i] + gs[i + 1]) / 2 for i in rng.sample(range(n - 1), rng.randint(2, n - 1))]
+                if kind == "mixed-shuffled":
+                    pts = pts[:2] + rng.sample(gs, 2)
+                go = sorted(pts, reverse=True) if kind == "nodes-reversed" else pts
+                if go == sorted(go):
+                    go = go[::-1]
+                for attempt in range(20):
+                    cfg = {"steady": True, "af": gen_af(rng, n, npar, "all", False, steady=True), "solver": sk, "tag": 0, "gsol": gs, "gobs": go,
+                           "omap": [rng.choice(["none", "first", "square"])]}
+                    plist = [gen_p(rng, npar), gen_p(rng, npar)]
+                    if sk == "fake" or all(well_conditioned(cfg, x) for x in plist):
+                        break
+                cell = "ss/unsorted-grid_obs/%s/%s" % (kind, sk)
+                cases.add(cell, "ss_direct", lambda: case_ss_direct(cuqi, cfg, plist[0], cell), cfg=cfg, p=plist[0], assembled=True)
+                cases.add(cell, "ss_forward", lambda: cases_ss_forward(cuqi, cfg, plist, 1, 0, cell), cfg=cfg, plist=plist, a=1, d=0)
+
     # ---- 5e. solutions with two space axes (solution.ndim = 3): restriction route vs the refusing interpolation route -------------------
     for _ in range(reps):
         for gkind in ["none", "equal", "differ"]:
@@ -2220,6 +2688,10 @@ def run(ctx):
             for hj in (True, False):
                 for steady in (True, False):
                     cases.add("gradient", "gradient", lambda: case_gradient(cuqi, rng, hg, hj, steady))
+    for hg in (True, False):
+        for hj in (True, False):
+            for shape in [(4, 4), (3, 3), (4, 2), (2, 4), (1, 3), (3, 1)]:
+                cases.add("gradient", "gradient", lambda: case_gradient(cuqi, rng, hg, hj, rng.random() < 0.5, shape))
     cases_testproblems(cuqi, ctx, q, cases)
     return Result(cases=list(cases), rule=RULE,
                   extra={"tree_state": q},
